@@ -22,7 +22,7 @@ ASSUMPTIONS = [
     "status Name: escaping is the kernel's (newline and backslash only)",
     "records are never truncated below the 'processor' field (psutil has always required it)",
     "cmdline is empty, or the name is shorter than 15 bytes, so the name-extension rule of C12 is inert",
-    "/dev/pts is a generated inventory (regular files reported as character devices 136:n, n up to 2^20-1); tty_nr uses the kernel's new_encode_dev() encoding, which equals glibc's makedev() for these numbers",
+    "/dev is a simulated inventory: consoles and serial lines with the kernel's device numbers (4:n, 5:n), serial lines that are plugged in after the device map was first built (188:n, 166:n, 204:n), and /dev/pts (regular files reported as character devices 136:n, n up to 2^20-1); tty_nr uses the kernel's new_encode_dev() encoding, which equals glibc's makedev() for these numbers",
     "unknown state letters: only 'no exception' is asserted (statement maps documented letters only)",
 ]
 REQUIRED_COUNTERS = ["getter_comparisons", "thread_rows_compared"]
